@@ -40,3 +40,61 @@ def defer_plan(F, R):
             R.ob('C05.cell', okv, {'machine': Facts.short(m.fe, 60), 'event': Facts.short(ev, 40), 'state': Facts.short(s, 50), 'depth': d})
             if not okv:
                 R.find('C05.cell', f, 'deferral-unreached', 'state %s (depth %d) defers %s but the deferral visitor is never instantiated for it: the traversal is pruned before reaching it' % (Facts.short(s, 60), d, Facts.short(ev, 40)), instance=Facts.short(m.fe, 100) + ' / ' + Facts.short(ev, 40))
+
+@rule('visitset')
+def visitset(F, R):
+    """C03.visit-set (backmp11): the compile-time pruning sets of the filtered recursive state visitors (used by is_state_active,
+    is_flag_active, the deferral check, ...) are closed under nesting: for every instantiated recursive_visit_set<SM, P...> and every
+    submachine Sub of SM the set for (Sub, P) exists and Sub is traversed exactly when that set says it needs traversal."""
+    rvs = {}
+    for r in F.records:
+        if r['n'] == 'recursive_visit_set' and r['loc'].startswith('boost/msm/backmp11/') and r.get('a'):
+            a = F.targs(r['a'])
+            if len(a) >= 2:
+                rvs[(strip_cvref(str(a[0])),) + tuple(str(x) for x in a[1:])] = r
+    if not rvs: return
+    def internal_of(t):
+        rec = F.rec_by_type(t); depth = 0
+        while rec and depth < 5:
+            if rec['n'] == 'state_machine_base':
+                return F.rec_by_type(F.strs[rec['t']] + '::internal')
+            nxt = None
+            for b in rec['bases']: nxt = nxt or F.rec_by_type(F.strs[b['t']])
+            rec = nxt; depth += 1
+        return None
+    def tl(rec, name):
+        if name not in rec['tds']: return None
+        return [strip_cvref(x) for x in (type_list(F.strs[rec['tds'][name]]) or [])]
+    def truth(rec):
+        s = F.strs[rec['tds'].get('needs_traversal', 0)] if 'needs_traversal' in rec['tds'] else ''
+        return 'true' in s
+    for key, r in sorted(rvs.items()):
+        sm = key[0]; preds = key[1:]
+        internal = internal_of(sm)
+        if internal is None: continue
+        subs = tl(internal, 'submachines') or []
+        if not subs: continue
+        R.anchor('visit-set-with-submachines:%d-pred' % len(preds))
+        trav = tl(r, 'submachines_to_traverse')
+        if trav is None: continue
+        plast = preds[-1]
+        base_trav = None
+        if len(preds) == 2:
+            b = rvs.get((sm, preds[0]))
+            base_trav = tl(b, 'submachines_to_traverse') if b else None
+        for sub in subs:
+            child = rvs.get((sub, plast))
+            sample = {'machine': Facts.short(sm, 60), 'predicate': Facts.short(plast, 60), 'submachine': Facts.short(sub, 60)}
+            if base_trav is not None and sub not in base_trav:
+                ok = sub not in trav
+                R.ob('C03.visit-set', ok, sample)
+                if not ok: R.find('C03.visit-set', ('boost/msm/backmp11/detail/state_visitor.hpp', 'boost::msm::backmp11::detail::recursive_visit_set'), 'extra', 'submachine %s is traversed for predicate %s although the first predicate prunes it' % (Facts.short(sub, 60), Facts.short(plast, 60)), where=r['loc'], instance=Facts.short(sm, 120))
+                continue
+            if child is None:
+                R.ob('C03.visit-set', False, sample)
+                R.find('C03.visit-set', ('boost/msm/backmp11/detail/state_visitor.hpp', 'boost::msm::backmp11::detail::recursive_visit_set'), 'not-recursive', 'the visit set of %s for predicate %s was computed without consulting the visit set of its submachine %s: states nested below that submachine are never reached by the filtered visitors (is_state_active / is_flag_active / deferral check answer false for them)' % (Facts.short(sm, 60), Facts.short(plast, 60), Facts.short(sub, 60)), where=r['loc'], instance=Facts.short(sm, 120) + ' / ' + Facts.short(plast, 80))
+                continue
+            ok = (sub in trav) == truth(child)
+            R.ob('C03.visit-set', ok, sample)
+            if not ok:
+                R.find('C03.visit-set', ('boost/msm/backmp11/detail/state_visitor.hpp', 'boost::msm::backmp11::detail::recursive_visit_set'), 'inconsistent', 'submachine %s is %s by the visit set of %s for predicate %s although its own visit set says needs_traversal=%s' % (Facts.short(sub, 60), 'traversed' if sub in trav else 'pruned', Facts.short(sm, 60), Facts.short(plast, 60), truth(child)), where=r['loc'], instance=Facts.short(sm, 120) + ' / ' + Facts.short(plast, 80))
